@@ -163,6 +163,8 @@ func (r *renderer) expr(e *Expr) string {
 		return "(&" + a(0) + ")"
 	case "new":
 		return "new(" + e.Ty.Go(r.pfx) + ")"
+	case "nil":
+		return "nil"
 	case "slit":
 		return e.Ty.Go(r.pfx) + "{" + r.exprs(e.Args) + "}"
 	case "alit":
@@ -240,6 +242,8 @@ func (r *renderer) stmt(s *Stmt) {
 		r.line("%s", r.simple(s))
 	case "print":
 		r.line("println(%s)", r.exprs(s.Es))
+	case "delete":
+		r.line("delete(%s)", r.exprs(s.Es))
 	case "ret":
 		if len(s.Es) == 0 {
 			r.line("return")
